@@ -10,6 +10,7 @@ From PintV Require Import Proofs.C11_order Proofs.C11_perm Proofs.C11_monitor.
 From PintV Require Proofs.C11_stable_sort.
 From PintV Require Import Model.ScanLTS Model.JobEnum Proofs.C11_lts Proofs.C11_jobs.
 From PintV Require Gen.C11.
+From PintV Require Import Model.ScanSkeleton.
 Import ListNotations.
 Local Open Scope Z_scope.
 
